@@ -289,6 +289,41 @@ def key_bounds(F, R):
     R.floor('key-vs-capacity tests in MetaSlotMap', n, 3)
 
 
+def resize_range(F, R):
+    """Vector::resize_with fills exactly the slots [len, new_len): `take(new_len)` then `skip(len)` (or skip(len).take(new_len - len)).
+    skip(len).take(new_len) writes up to `len` surplus elements beyond the recorded length: they are never dropped."""
+    fs = F.find_fns(r'^iceoryx2_bb_container::vector::Vector::resize_with$')
+    if len(fs) != 1:
+        R.missing('Vector::resize_with')
+        return
+    f = fs[0]
+    it = [c for c in f.calls(r'IntoIterator>::into_iter$')]
+    # recognised compositions of skip/take over the slot iterator: good = [len, new_len) ; bad = [len, len + new_len) or [new_len, ..).
+    # any other way of writing the loop (index range, helper ..) is not judged by this rule (no alarm on an unrecognised idiom)
+    verdict, t = 'not a skip/take composition (not judged)', ''
+    ok = True
+    for c in it:
+        t = sym_nstr(sym(f, c.args[0]))
+        if re.match(r'^skip\(take\((.*), new_len\), len\(self\)\)$', t) or re.match(r'^take\(skip\((.*), len\(self\)\), \(new_len - len\(self\)\)\)$', t):
+            verdict = 'slots len..new_len'
+        elif re.match(r'^take\(skip\((.*), len\(self\)\), new_len\)$', t):
+            ok, verdict = False, 'slots len..len+new_len: up to `len` surplus elements are written beyond the recorded length and never dropped'
+        elif re.match(r'^skip\(take\((.*), len\(self\)\), new_len\)$', t):
+            ok, verdict = False, 'empty / wrong range'
+    R.ob('SYM-EQ', 'SYM-EQ::%s::fills-exactly-len..new_len' % fnkey(f), ok, 'the fill loop iterates over `%s`: %s' % (t[:120], verdict), it[0].where if it else '%s:%s' % (f.file, f.line), f)
+
+
+def flatmap_error_precedence(F, R):
+    """FlatMap::insert: a key that is already stored is reported as KeyAlreadyExists even when the map is full (the reference model's answer;
+    a duplicate insert does not need space): the duplicate-key scan precedes every IsFull refusal."""
+    for f in F.find_fns(r'^iceoryx2_bb_container::flatmap::MetaFlatMap::<.*>::insert_impl$'):
+        dup = agg_sites(f, r'FlatMapError$', 'KeyAlreadyExists')
+        full = agg_sites(f, r'FlatMapError$', 'IsFull')
+        scan = f.calls(r'Iterator::skip_while$|::get_ref_impl$|::contains_impl$|::get_impl$')
+        ok = bool(dup) and bool(full) and bool(scan) and all(any(f.dominates(sc, e) for sc in scan) for e in full)
+        R.ob('DOM', 'DOM::%s::duplicate-key-scan<IsFull' % fnkey(f), ok, 'every IsFull refusal (%d) is dominated by the duplicate-key scan (%d site(s)): full + existing key = KeyAlreadyExists' % (len(full), len(scan)), full[0].where if full else '%s:%s' % (f.file, f.line), f)
+
+
 def check(F, R, tier):
     delegates_same(F, R)
     refusal_before_write(F, R)
@@ -296,6 +331,8 @@ def check(F, R, tier):
     ring_index(F, R)
     free_list(F, R)
     key_bounds(F, R)
+    resize_range(F, R)
+    flatmap_error_precedence(F, R)
 
 
 LEVEL_TEXT = ("Decides structural clauses over all storage flavours: wrappers forward to the same-named operation, refusals are never reached after "
